@@ -1,5 +1,6 @@
-\* C46: 16 x Chains random histories of 24 calls (seed: tlc -seed); the per-state
-\* laws are checked by DmqAuth.cfg on all 256 states, here the history laws
+\* C46: 16 x Chains random histories of 24 calls (seed: VERIF_SEED), replays of presented
+\* messages among the calls drawn; the per-state laws are checked by DmqAuth.cfg and
+\* DmqAuthReplay.cfg on all their states, here the history laws
 CONSTANTS
   Pools = {"p1", "p2"}
   Counters = {0, 1, 2}
@@ -12,4 +13,4 @@ CONSTANTS
   Replays <- AllReplays
 INIT Init
 NEXT Next
-INVARIANTS TypeOK MonotoneLast CacheIsLastAccepted ReplayRejected ReplayAsFresh KnownIsPresented ReplaySourcedLast EmitHist
+INVARIANTS TypeOK MonotoneLast CacheIsLastAccepted KnownIsPresented ReplaySourcedLast EmitHist
